@@ -558,12 +558,20 @@ def _worker(args):
                 return len(cexs) >= 3
             if res.kind == "ok" and len(out["samples"]) < 2 and ctx is not None and res.decisions:
                 try:
-                    out["samples"].append(dict(path_decisions=len(res.decisions),
-                                               witness_inputs=ctx.mk.concretize(res.space.get_model())))
+                    smp = dict(path_decisions=len(res.decisions),
+                               witness_inputs=ctx.mk.concretize(res.space.get_model()))
+                    la = res.space.notes.get("last_assert")
+                    if la is not None:
+                        smp["last_discharged_assertion"] = dict(label=la[0], negation_unsat=True,
+                                                                smtlib=la[1].sexpr()[:700])
+                    out["samples"].append(smp)
                 except BaseException:
                     pass
             return False
 
+        from .core import Space as _Space
+
+        _Space.capture = dict(queries=[], limit=(3 if tier == "thorough" else 1), every=7, seen=0)
         _cov_start()
         try:
             try:
@@ -583,6 +591,8 @@ def _worker(args):
             out["solver_s"] = round(st.get("solver_s", 0.0), 3)
         out["witnesses"] = sorted(shared.get("witness", ()))
         out["funcs"] = _cov_report()
+        out["cross"] = _cross_solver(_Space.capture["queries"])
+        _Space.capture = None
 
         # 3. replay every counterexample on the real stack
         for rec in cexs:
@@ -606,6 +616,47 @@ def _worker(args):
         out["tb"] = traceback.format_exc(limit=20)
     out["wall_s"] = round(time.time() - t0, 2)
     return out
+
+
+def _cross_solver(queries, limit_ms=15000):
+    """re-decide exported (path condition AND NOT assertion) queries, which z3 found unsat, with cvc5"""
+    res = dict(queries=0, agree=0, unknown=0, disagree=[])
+    if not queries:
+        return res
+    try:
+        import cvc5
+    except Exception:
+        res["unavailable"] = True
+        return res
+    for label, txt in queries:
+        try:
+            tm = cvc5.TermManager() if hasattr(cvc5, "TermManager") else None
+            slv = cvc5.Solver(tm) if tm else cvc5.Solver()
+            slv.setOption("tlimit-per", str(limit_ms))
+            slv.setLogic("ALL")
+            ip = cvc5.InputParser(slv)
+            ip.setStringInput(cvc5.InputLanguage.SMT_LIB_2_6, txt, "q")
+            sm = ip.getSymbolManager()
+            answer = ""
+            while True:
+                cmd = ip.nextCommand()
+                if cmd.isNull():
+                    break
+                o = cmd.invoke(slv, sm).strip()
+                if o:
+                    answer = o
+            res["queries"] += 1
+            if answer == "unsat":
+                res["agree"] += 1
+            elif answer == "sat":
+                res["disagree"].append(label)
+            else:
+                res["unknown"] += 1
+        except Exception as e:  # parser/solver limitation: counted as unknown, never as agreement
+            res["queries"] += 1
+            res["unknown"] += 1
+            res.setdefault("errors", []).append("%s: %s" % (type(e).__name__, str(e)[:120]))
+    return res
 
 
 def _compare(out, ra, rb):
@@ -755,6 +806,8 @@ def finish(pid, tier, seed, hm, obs, results, wall, write=True, validation=None)
         if r["unsupported"] and not bad:
             inconclusive.append("%s: unsupported operation on a path (%s)" % (r["name"], r["unsupported"][0].get("msg")))
             bad = True
+        if (r.get("cross") or {}).get("disagree"):
+            harness_errors.append("cvc5 finds a model for an assertion z3 discharged in %s: %s" % (r["name"], r["cross"]["disagree"]))
         if r.get("missing_witnesses") and not bad:
             harness_errors.append("coverage witness never reached in %s: %s" % (r["name"], r["missing_witnesses"]))
         if r["asserted_paths"] == 0 and not bad:
@@ -864,6 +917,10 @@ def write_evidence(pid, tier, seed, hm, obs, results, wall, discharged, inconclu
         traces_validated_against_impl=sum(r["validated"] for r in results) + sum(
             v.get("cases", 0) for v in ((validation or {}).get("report") or {}).values()),
         model_validation=(validation or {}).get("report"),
+        cross_solver=dict(solver="cvc5", queries=sum((r.get("cross") or {}).get("queries", 0) for r in results),
+                          agree=sum((r.get("cross") or {}).get("agree", 0) for r in results),
+                          unknown=sum((r.get("cross") or {}).get("unknown", 0) for r in results),
+                          disagree=sum(len((r.get("cross") or {}).get("disagree", [])) for r in results)),
         functions_encoded={k: "%d/%d lines" % (v[0], v[1]) for k, v in sorted(funcs.items())},
         bounds=getattr(hm, "bounds", lambda t: {})(tier),
         per_obligation=[dict(name=r.get("name"), status=r["status"], paths=r["paths"], queries=r["queries"],
